@@ -40,26 +40,40 @@ extern "C" void h_error()
     vp_assert(vp_dom_equal(&t1, &t2), "C02 QXmppStanza::Error: parse/serialize is a fix point (second pass gives the same document)");
 }
 
+extern "C" void h_error_safe()   // first half on the same tree: safety of Error::parse + well-formed output
+{
+    WARM()
+    C02Tree<3, 1> t; t.build(h_error_v);
+    QXmppStanza::Error e; e.parse(t.root.el);
+    VpWriter w1; wrapError(e, w1); QDomElement t1 = w1.root();
+    vp_assert(!t1.isNull(), "C02 QXmppStanza::Error: a parsed error serializes to well-formed XML");
+}
 // ---- generic QXmppIq ----
-VOCAB(h_iq, ARR("iq", "error", "bind", "ping", "text", "item-not-found", "zz"), ARR("", NS_CLIENT, NS_STANZA, NS_BIND, "x:y"),
+VOCAB(h_iq, ARR("iq", "error", "bind", "ping", "text", "item-not-found", "zz", "jid"), ARR("", NS_CLIENT, NS_STANZA, NS_BIND, NS_PING),
       ARR("id", "type"), ARR("get", "result", "error", "cancel"))
 #define STANZA_FIXPOINT(T, name, t) { T x; x.parse(t); VpWriter w1; x.toXml(w1.writer()); QDomElement t1 = w1.root(); \
       T y; y.parse(t1); VpWriter w2; y.toXml(w2.writer()); QDomElement t2 = w2.root(); \
       vp_assert(vp_dom_equal(&t1, &t2), "C02 " name ": parse/serialize is a fix point (second pass gives the same document)"); }
 // Shape (child count, tag and namespace of every child and of its optional single grandchild) is chosen by VP_CASE, i.e. concrete per instance;
 // attribute presence/values and text stay symbolic. (A fully symbolic tree through QXmppIq + QXmppStanza::parse + Error::parse twice gave no
-// verdict in 15 min.)  bits: [0..1] n1 (0..2); per child c at base 2 + 11*c: [0..2] tag, [3..4] ns, [5] has grandchild, [6..8] grandchild tag, [9..10] grandchild ns
-template<class T> static void iqShape(const Vocab &v, const char *name, int rootTag)
-{
-    C02Node root, c[2], g[2];
-    root.make(v, nullptr, rootTag, -1);
-    unsigned n1 = vp_case_u(0, 3);
-    for (unsigned i = 0; i < 2; i++) {
-        if (i >= n1) break;
-        unsigned b = 2 + 11 * i;
-        c[i].make(v, &root, int(vp_case_u(b, 8) % v.nTags), int(vp_case_u(b + 3, 4) % v.nNss)); vp_c02_append(&root.el, &c[i].el);
-        if (vp_case_bool(b + 5)) { g[i].make(v, &c[i], int(vp_case_u(b + 6, 8) % v.nTags), int(vp_case_u(b + 9, 4) % v.nNss)); vp_c02_append(&c[i].el, &g[i].el); }
-    }
-    STANZA_FIXPOINT(T, "stanza", root.el)
+// verdict in 15 min.)  bits: [0..1] n1 (0..2); per child c at base 2 + 13*c: [0..2] tag, [3..5] ns, [6] has grandchild, [7..9] grandchild tag, [10..12] grandchild ns
+#define IQSHAPE(fn, T, ADMIT) static void fn(const Vocab &v, int rootTag, bool &admitted)\
+{ \
+    C02Node root, c[2], g[2]; \
+    root.make(v, nullptr, rootTag, -1); \
+    unsigned n1 = vp_case_u(0, 4); if (n1 > 2) n1 = 2; \
+    for (unsigned i = 0; i < 2; i++) { \
+        if (i >= n1) break; \
+        unsigned b = 2 + 13 * i; \
+        c[i].make(v, &root, int(vp_case_u(b, 8) % v.nTags), int(vp_case_u(b + 3, 8) % v.nNss)); vp_c02_append(&root.el, &c[i].el); \
+        if (vp_case_bool(b + 6)) { g[i].make(v, &c[i], int(vp_case_u(b + 7, 8) % v.nTags), int(vp_case_u(b + 10, 8) % v.nNss)); vp_c02_append(&c[i].el, &g[i].el); } \
+    } \
+    if (ADMIT) { STANZA_FIXPOINT(T, "stanza", root.el) admitted = true; } \
 }
-extern "C" void h_iq() { WARM() iqShape<QXmppIq>(h_iq_v, "QXmppIq", 0); }
+IQSHAPE(iqShapeIq, QXmppIq, true)
+IQSHAPE(iqShapeBind, QXmppBindIq, QXmppBindIq::isBindIq(root.el))
+IQSHAPE(iqShapePing, QXmppPingIq, QXmppPingIq::isPingIq(root.el))
+extern "C" void h_iq() { WARM() bool admitted = false; iqShapeIq(h_iq_v, 0, admitted); vp_assume(admitted); }
+extern "C" void h_bind_iq() { WARM() bool admitted = false; iqShapeBind(h_iq_v, 0, admitted); vp_assume(admitted); }
+extern "C" void h_ping_iq() { WARM() bool admitted = false; iqShapePing(h_iq_v, 0, admitted); vp_assume(admitted); }
+
